@@ -509,4 +509,234 @@ theorem ser_stack (L : Laws mk view ord) (vs : List (Val R)) (bt : Built R) (h :
   have hlen : vs.length < 2 ^ 24 := by have := p.1.2.2; exact_mod_cast this
   exact ⟨by simpa using IsStack.mk hlen il, hmk⟩
 
+
+/-! ### slice operations: reading back what the schema prescribes -/
+
+/-- `p` consumes exactly `xs` / `rs` from the front of any slice and returns `a` -/
+def Reads {α : Type} (p : SOp R α) (xs : Bits) (rs : List R) (a : α) : Prop :=
+  ∀ b' r', p ⟨xs ++ b', rs ++ r'⟩ = (⟨b', r'⟩, some a)
+
+theorem Reads.bind {α β : Type} {p : SOp R α} {f : α → SOp R β} {x1 x2 r1 r2 a c}
+    (h1 : Reads p x1 r1 a) (h2 : Reads (f a) x2 r2 c) : Reads (p >>= f) (x1 ++ x2) (r1 ++ r2) c := by
+  intro b' r'
+  show SOp.bind p f _ = _
+  unfold SOp.bind
+  rw [List.append_assoc, List.append_assoc, h1]
+  exact h2 b' r'
+
+theorem reads_pure {α : Type} (a : α) : Reads (Pure.pure a : SOp R α) [] [] a := by
+  intro b' r'; rfl
+
+theorem Reads.cast {α : Type} {p : SOp R α} {xs xs' rs rs' a} (h : Reads p xs rs a) (e1 : xs' = xs) (e2 : rs' = rs) :
+    Reads p xs' rs' a := by subst e1 e2; exact h
+
+theorem delBits_app (xs b' : Bits) (r : List R) (n : Nat) (h : xs.length = n) :
+    SOp.delBits n (⟨xs ++ b', r⟩ : Slice R) = (⟨b', r⟩, some ()) := by
+  unfold SOp.delBits
+  by_cases hn : n = 0
+  · have : xs = [] := by apply List.eq_nil_of_length_eq_zero; omega
+    simp [hn, this]
+  · have : ¬ (xs ++ b').length < n := by simp; omega
+    simp [hn, this, ← h]
+
+theorem reads_loadBits (xs : Bits) (n : Nat) (h : xs.length = n) : Reads (SOp.loadBits n : SOp R Bits) xs [] xs := by
+  intro b' r'
+  show SOp.bind _ _ _ = _
+  simp only [SOp.bind, SOp.peekBits, List.nil_append]
+  show SOp.bind _ _ _ = _
+  simp only [SOp.bind, delBits_app xs b' r' n h]
+  simp [← h]; rfl
+
+theorem reads_skipBits (xs : Bits) (n : Nat) (h : xs.length = n) : Reads (SOp.skipBits n : SOp R Unit) xs [] () := by
+  intro b' r'; simpa [SOp.skipBits] using delBits_app xs b' r' n h
+
+theorem reads_loadUint {n : Nat} {v : Int} (hn : 0 < n) (hv : UintOk n v) :
+    Reads (SOp.loadUint n : SOp R Int) (uintBits n v) [] v := by
+  intro b' r'
+  have hl : (uintBits n v).length = n := natToBits_length _ _
+  have hval : SOp.ba2intU (uintBits n v) = some v := by
+    unfold SOp.ba2intU
+    have hne : (uintBits n v).isEmpty = false := by
+      cases h : uintBits n v with
+      | nil => rw [h] at hl; simp at hl; omega
+      | cons _ _ => rfl
+    rw [hne]; simp only [Bool.false_eq_true, if_false, uintBits, natOfBits_natToBits]
+    have h1 : v.toNat < 2 ^ n := by
+      have := hv.2; have h0 := hv.1
+      have : ((v.toNat : Nat) : Int) < ((2 ^ n : Nat) : Int) := by rw [Int.toNat_of_nonneg h0]; exact_mod_cast this
+      exact_mod_cast this
+    rw [Nat.mod_eq_of_lt h1, Int.toNat_of_nonneg hv.1]
+  simp only [SOp.loadUint, SOp.preloadUint, Bind.bind, SOp.bind, SOp.peekBits, SOp.ofOption, List.nil_append,
+    List.take_left' hl, hval, delBits_app _ b' r' n hl, Pure.pure, SOp.pure]
+
+
+theorem natToBits_head (m x : Nat) : natToBits (m + 1) x = (x / 2 ^ m % 2 == 1) :: natToBits m x := by
+  induction m generalizing x with
+  | zero => simp [natToBits]
+  | succ m ih =>
+    rw [natToBits, ih (x / 2)]
+    conv_rhs => rw [natToBits]
+    simp only [List.cons_append, Nat.div_div_eq_div_mul]
+    rw [show 2 * 2 ^ m = 2 ^ (m + 1) by rw [Nat.pow_succ, Nat.mul_comm]]
+
+theorem ba2intS_intBits {n : Nat} {v : Int} (hn : 0 < n) (hv : IntOk n v) : SOp.ba2intS (intBits n v) = some v := by
+  obtain ⟨m, rfl⟩ : ∃ m, n = m + 1 := ⟨n - 1, by omega⟩
+  have hok := hv
+  simp only [IntOk, Nat.add_sub_cancel] at hv
+  have hpos : (0 : Int) < 2 ^ m := Int.pow_pos (by decide)
+  have hp : (2 : Int) ^ (m + 1) = 2 * 2 ^ m := by rw [pow_succ]; ring
+  have hpn : (2 : Nat) ^ (m + 1) = 2 * 2 ^ m := by rw [Nat.pow_succ, Nat.mul_comm]
+  have hposn : 0 < 2 ^ m := Nat.two_pow_pos m
+  rw [intBits, intBits_eq hn hok]
+  generalize hx : (if v ≥ 0 then v.toNat else (v + 2 ^ (m + 1)).toNat) = x
+  have hcast : ((2 ^ m : Nat) : Int) = 2 ^ m := by push_cast; rfl
+  have hxlt : x < 2 ^ (m + 1) := by
+    have : (x : Int) < 2 ^ (m + 1) := by
+      rw [← hx]; split
+      · rw [Int.toNat_of_nonneg (by omega)]; omega
+      · rw [Int.toNat_of_nonneg (by omega)]; omega
+    have h2 : ((2 ^ (m + 1) : Nat) : Int) = 2 ^ (m + 1) := by push_cast; rfl
+    rw [← h2] at this; exact_mod_cast this
+  unfold SOp.ba2intS
+  rw [natToBits_head]
+  simp only [← natToBits_head, natOfBits_natToBits, Nat.mod_eq_of_lt hxlt, List.length_cons, natToBits_length]
+  congr 1
+  by_cases hv0 : v ≥ 0
+  · simp only [hv0, if_true] at hx
+    have hxm : x < 2 ^ m := by
+      have : (x : Int) < 2 ^ m := by rw [← hx, Int.toNat_of_nonneg hv0]; exact hv.2
+      rw [← hcast] at this; exact_mod_cast this
+    have : x / 2 ^ m = 0 := Nat.div_eq_of_lt hxm
+    rw [this]; simp only [Nat.zero_mod]; simp
+    rw [← hx, Int.toNat_of_nonneg hv0]
+  · simp only [hv0, if_false] at hx
+    have hxi : (x : Int) = v + 2 ^ (m + 1) := by rw [← hx, Int.toNat_of_nonneg (by omega)]
+    have hxm : 2 ^ m ≤ x := by
+      have : (2 : Int) ^ m ≤ x := by rw [hxi]; omega
+      rw [← hcast] at this; exact_mod_cast this
+    have : x / 2 ^ m = 1 := by
+      apply Nat.div_eq_of_lt_le <;> omega
+    rw [this]; simp
+    rw [hxi]; omega
+
+theorem reads_loadInt {n : Nat} {v : Int} (hn : 0 < n) (hv : IntOk n v) :
+    Reads (SOp.loadInt n : SOp R Int) (intBits n v) [] v := by
+  intro b' r'
+  have hl : (intBits n v).length = n := natToBits_length _ _
+  simp only [SOp.loadInt, SOp.preloadInt, Bind.bind, SOp.bind, SOp.peekBits, SOp.ofOption, List.nil_append,
+    List.take_left' hl, ba2intS_intBits hn hv, delBits_app _ b' r' n hl, Pure.pure, SOp.pure]
+
+theorem reads_loadRef (c : R) : Reads (SOp.loadRef : SOp R R) [] [c] c := by
+  intro b' r'; simp [SOp.loadRef]
+
+theorem reads_loadBit (x : Bool) : Reads (SOp.loadBit : SOp R Bool) [x] [] x := by
+  intro b' r'; simp [SOp.loadBit]
+
+theorem reads_loadMaybeRef (o : Option R) : Reads (SOp.loadMaybeRef : SOp R (Option R)) [o.isSome] o.toList o := by
+  intro b' r'
+  cases o with
+  | none => simp [SOp.loadMaybeRef, Bind.bind, SOp.bind, SOp.loadBit, Pure.pure, SOp.pure]
+  | some c => simp [SOp.loadMaybeRef, Bind.bind, SOp.bind, SOp.loadBit, SOp.loadRef, Pure.pure, SOp.pure]
+
+theorem reads_loadByte (k : Nat) : Reads (SOp.loadBytes 1 : SOp R Bytes) (tagByte k) [] (bitsToBytes (tagByte k)) := by
+  intro b' r'
+  have hl : (tagByte k).length = 1 * 8 := natToBits_length _ _
+  simp only [SOp.loadBytes, SOp.preloadBytes, Bind.bind, SOp.bind, SOp.peekBits, List.nil_append,
+    List.take_left' hl, delBits_app _ b' r' _ hl, Pure.pure, SOp.pure]
+
+
+theorem uintOk_nat {n k : Nat} (h : k < 2 ^ n) : UintOk n (k : Int) :=
+  ⟨Int.natCast_nonneg k, by have : ((k : Nat) : Int) < ((2 ^ n : Nat) : Int) := by exact_mod_cast h
+                            simpa using this⟩
+
+theorem reads_cellSlice {bits : Bits} {refs : List R} {b : Bits} {r : List R}
+    (h : IsCellSlice view bits refs b r) : Reads (De.cellSlice view) b r (bits, refs) := by
+  obtain ⟨c, st, en, sr, er, h1, h2, h3, h4, h5, h6⟩ := h
+  unfold De.cellSlice
+  have e1 : ¬ ¬ ((st : Int) ≤ (en : Int)) := by simpa using h1
+  have e2 : ¬ ¬ ((sr : Int) ≤ (er : Int)) := by simpa using h4
+  have hst : UintOk 10 (st : Int) := uintOk_nat (by omega)
+  have hen : UintOk 10 (en : Int) := uintOk_nat (by omega)
+  have hsr : UintOk 3 (sr : Int) := uintOk_nat (by omega)
+  have her : UintOk 3 (er : Int) := uintOk_nat (by omega)
+  have fin : Reads (Pure.pure (pySlice (view c).1 (st : Int).toNat (en : Int).toNat,
+      pySlice (view c).2 (sr : Int).toNat (er : Int).toNat) : SOp R (Bits × List R)) [] []
+      (window (view c).1 st en, window (view c).2 sr er) := by
+    have := reads_pure (R := R) (window (view c).1 st en, window (view c).2 sr er)
+    simpa [pySlice, window] using this
+  have s3 := Reads.bind (f := fun sr' : Int => (SOp.loadUint 3 : SOp R Int) >>= fun er' : Int =>
+      if ¬ sr' ≤ er' then SOp.fail else (Pure.pure (pySlice (view c).1 (st : Int).toNat (en : Int).toNat,
+        pySlice (view c).2 sr'.toNat er'.toNat) : SOp R (Bits × List R)))
+    (reads_loadUint (R := R) (n := 3) (v := sr) (by decide) hsr) (by
+      refine Reads.bind (x2 := []) (r2 := []) (c := (window (view c).1 st en, window (view c).2 sr er))
+        (reads_loadUint (R := R) (n := 3) (v := er) (by decide) her) ?_
+      show Reads (if ¬ (sr : Int) ≤ (er : Int) then SOp.fail else _) _ _ _
+      rw [if_neg e2]; exact fin)
+  intro b' r'
+  have k1 := reads_loadRef (R := R) c
+  have k2 := reads_loadUint (R := R) (n := 10) (v := st) (by decide) hst
+  have k3 := reads_loadUint (R := R) (n := 10) (v := en) (by decide) hen
+  have k4 := s3 b' r'
+  simp only [List.append_assoc, List.nil_append, List.append_nil] at k4
+  simp only [Bind.bind, SOp.bind, List.append_assoc, List.cons_append, List.nil_append]
+  have k1' := k1 (uintBits 10 ↑st ++ (uintBits 10 ↑en ++ (uintBits 3 ↑sr ++ (uintBits 3 ↑er ++ b')))) r'
+  simp only [List.nil_append, List.cons_append] at k1'
+  rw [k1']
+  have k2' := k2 (uintBits 10 ↑en ++ (uintBits 3 ↑sr ++ (uintBits 3 ↑er ++ b'))) r'
+  simp only [List.nil_append] at k2'
+  simp only [k2']
+  have k3' := k3 (uintBits 3 ↑sr ++ (uintBits 3 ↑er ++ b')) r'
+  simp only [List.nil_append] at k3'
+  simp only [k3', if_neg e1]
+  exact k4
+
+theorem reads_sub {α : Type} {p : SOp R α} {c : R} {a : α} (h : Reads p (view c).1 (view c).2 a) :
+    Reads (De.sub view p c) [] [] a := by
+  intro b' r'
+  have := h [] []
+  simp only [List.append_nil] at this
+  simp [De.sub, this]
+
+/-- fuel: if `p` works from `n` on, it works for any larger fuel -/
+def From {α : Type} (p : Nat → SOp R α) (xs : Bits) (rs : List R) (a : α) : Prop :=
+  ∃ n, ∀ fuel, n ≤ fuel → Reads (p fuel) xs rs a
+
+
+/-! ### the current code leaves the caller's values as they were -/
+
+mutual
+theorem postVal_id : ∀ v : Val R, postVal false v = v
+  | .null => by simp [postVal]
+  | .int _ => by simp [postVal]
+  | .cell _ => by simp [postVal]
+  | .slice _ _ => by simp [postVal]
+  | .builder _ _ => by simp [postVal]
+  | .cont k => by simp [postVal, postCont_id k]
+  | .tuple vs => by simp [postVal, postTuple_id vs]
+theorem postTuple_id : ∀ vs : List (Val R), postTuple false vs = vs
+  | [] => by simp [postTuple]
+  | v :: rest => by simp [postTuple, postVal_id v, postTupleRef_id rest]
+theorem postTupleRef_id : ∀ vs : List (Val R), postTupleRef false vs = vs
+  | [] => by simp [postTupleRef]
+  | [v] => by simp [postTupleRef, postVal_id v]
+  | v :: w :: rest => by simp [postTupleRef, postVal_id v, postTupleRef_id (w :: rest)]
+theorem postList_id : ∀ vs : List (Val R), postList false vs = vs
+  | [] => by simp [postList]
+  | v :: rest => by simp [postList, postVal_id v, postList_id rest]
+theorem postCont_id : ∀ k : Cont R, postCont false k = k
+  | .std cd _ _ => by simp [postCont, postCtl_id cd]
+  | .envelope cd n => by simp [postCont, postCtl_id cd, postCont_id n]
+  | .quit _ => by simp [postCont]
+  | .quitExc => by simp [postCont]
+  | .repeat_ _ b a => by simp [postCont, postCont_id b, postCont_id a]
+  | .until_ b a => by simp [postCont, postCont_id b, postCont_id a]
+  | .again b => by simp [postCont, postCont_id b]
+  | .whileCond c b a => by simp [postCont, postCont_id c, postCont_id b, postCont_id a]
+  | .whileBody c b a => by simp [postCont, postCont_id c, postCont_id b, postCont_id a]
+  | .pushint _ n => by simp [postCont, postCont_id n]
+theorem postCtl_id : ∀ cd : Ctl R, postCtl false cd = cd
+  | .mk _ none _ _ => by simp [postCtl]
+  | .mk _ (some st) _ _ => by simp [postCtl, postList_id st]
+end
+
 end TonVerif.Proofs.Vm
